@@ -119,7 +119,7 @@ class _Subst(ast.NodeTransformer):
         self.al = al
 
     def visit_Name(self, node):
-        if isinstance(node.ctx, ast.Load) and node.id in self.al:
+        if isinstance(getattr(node, "ctx", None) or ast.Load(), ast.Load) and node.id in self.al:
             return copy.deepcopy(self.al[node.id])
         return node
 
